@@ -23,7 +23,7 @@ import copy
 import dataclasses
 import functools
 import types
-from typing import Any, Callable, Collection, Dict, FrozenSet, Generic, Iterable, Mapping, NamedTuple, Optional, Set, Tuple, Type, TypeVar, Union
+from typing import Any, Callable, Collection, Dict, FrozenSet, Generic, Iterable, List, Mapping, NamedTuple, Optional, Set, Tuple, Type, TypeVar, Union
 
 from fiddle._src import daglish
 from fiddle._src import history
@@ -108,6 +108,39 @@ def _register_buildable_defaults_aware_traversers(cls: Type[Buildable]):
   )
 
 
+def _first_paths_in_canonical_order(root: Any) -> List[daglish.Path]:
+  """Returns the path under which each node of `root` is first reached.
+
+  Shared (memoizable) nodes are visited once, leaves once per occurrence.
+  Children are visited in sorted path-element order rather than in flatten
+  order, so that the path recorded for a shared node does not depend on dict
+  insertion order or on the order in which **kwargs were set.
+  """
+  paths = []
+  seen = {}  # id -> object (keeps the object alive while its id is stored).
+
+  def visit(value, path):
+    # Internables are not memoized: they might be equal in value but have
+    # different object ids.
+    if daglish.is_memoizable(value) and not daglish.is_internable(value):
+      if id(value) in seen:
+        return
+      seen[id(value)] = value
+    paths.append(path)
+    traverser = _defaults_aware_traverser_registry.find_node_traverser(
+        type(value)
+    )
+    if traverser is not None:
+      values, _ = traverser.flatten(value)
+      path_elements = traverser.path_elements(value)
+      children = sorted(zip(path_elements, values), key=lambda child: child[0])
+      for path_element, child in children:
+        visit(child, path + (path_element,))
+
+  visit(root, ())
+  return paths
+
+
 def _compare_buildable(x: Buildable, y: Buildable, check_dag: bool = False):
   """Compare if two Buildables are equal, including DAG structure."""
   assert isinstance(x, Buildable)
@@ -148,26 +181,8 @@ def _compare_buildable(x: Buildable, y: Buildable, check_dag: bool = False):
   # result by path, which is expensive. Thus, we compare values first so
   # that most unequal cases will not reach the expensive DAG compare step.
   if check_dag:
-    x_elements = list(
-        daglish.iterate(
-            x,
-            memoized=True,
-            # Not to memorize internables during traversal, as they might
-            # be equal in value but have different object ids.
-            memoize_internables=False,
-            registry=_defaults_aware_traverser_registry,
-        )
-    )
-    y_elements = list(
-        daglish.iterate(
-            y,
-            memoized=True,
-            memoize_internables=False,
-            registry=_defaults_aware_traverser_registry,
-        )
-    )
-    x_paths = sorted([elt[1] for elt in x_elements])
-    y_paths = sorted([elt[1] for elt in y_elements])
+    x_paths = sorted(_first_paths_in_canonical_order(x))
+    y_paths = sorted(_first_paths_in_canonical_order(y))
 
     if len(x_paths) != len(y_paths):
       return False
